@@ -148,3 +148,131 @@ Proof.
   destruct (attrs_doc_aux (gf_attrs f) None); cbn [bind]; try reflexivity.
   rewrite foldM_app. destruct (foldM (scan_fn_attr true) (gf_attrs f) _) as [[b c]| | |]; cbn [bind foldM]; try reflexivity.
 Qed.
+(** ** a gap written as [_: unknown<N>] and the same gap written as an address on the next field *)
+
+(** two regions that the naming pass cannot tell apart: same type, and either both unnamed or equal *)
+Definition same_named (a b : region) : Prop :=
+  r_type a = r_type b /\ ((r_name a = None /\ r_name b = None) \/ a = b).
+
+Lemma same_named_refl a : same_named a a.
+Proof. split; auto. Qed.
+
+Lemma name_regions_same_named R : forall rs1 rs2 s0,
+  Forall2 same_named rs1 rs2 -> name_regions R rs1 s0 = name_regions R rs2 s0.
+Proof.
+  induction rs1 as [|a rs1 IH]; intros rs2 s0 H; inversion H as [|a' b rs1' rs2' Hab Hrest]; subst; cbn [name_regions];
+    [reflexivity|].
+  destruct Hab as [Ht Hn]. rewrite Ht. destruct (size_of R (r_type b)) as [sz|]; [|reflexivity].
+  rewrite (IH _ _ Hrest).
+  destruct Hn as [[Ha Hb]|Heq]; [|subst; reflexivity]. rewrite Ha, Hb. reflexivity.
+Qed.
+
+(** a gap region: unnamed, of the padding type, not a base *)
+Definition is_gap (g : region) (n : N) : Prop :=
+  r_name g = None /\ r_type g = padding_type n /\ r_is_base g = false.
+
+(** one step: [gap; field] against [#[address(last + n)] field] *)
+Theorem gap_then_field_is_address R rs last g n r :
+  is_gap g n ->
+  match bind (push_pending R (rs, last) (None, g)) (fun a => push_pending R a (None, r)),
+        push_pending R (rs, last) (Some (last + n), r) with
+  | Ok (rs1, l1), Ok (rs2, l2) =>
+      l1 = l2 /\ exists mid1 mid2, rs1 = rs ++ mid1 /\ rs2 = rs ++ mid2 /\ Forall2 same_named mid1 mid2
+  | Defer, Defer => True
+  | Err _, Err _ => True
+  | Panic _, Panic _ => True
+  | _, _ => False
+  end.
+Proof.
+  intros (Hgn & Hgt & _). unfold push_pending. cbn [fst snd bind].
+  replace (last + n <? last) with false by (symmetry; apply N.ltb_ge; lia).
+  replace (last + n - last) with n by lia.
+  assert (same_named g (unnamed_region (padding_type n))) as Hsn by (split; [exact Hgt | left; split; [exact Hgn | reflexivity]]).
+  unfold regions_push. cbn [unnamed_region r_type fst snd]. rewrite Hgt.
+  destruct (size_of R (padding_type n)) as [sg|]; cbn [defer_opt bind]; [|exact I].
+  destruct ((sg =? 0) && stype_is_array (padding_type n)); cbn [defer_opt bind fst snd].
+  - unfold regions_push. cbn [fst snd]. destruct (size_of R (r_type r)) as [sr|]; cbn [defer_opt]; [|exact I].
+    destruct ((sr =? 0) && stype_is_array (r_type r)); cbn [defer_opt].
+    + split; [reflexivity|]. exists [], []. rewrite app_nil_r. repeat split. constructor.
+    + destruct (checked_add last sr); cbn [defer_opt]; [|exact I].
+      split; [reflexivity|]. exists [r], [r]. repeat split. constructor; [apply same_named_refl | constructor].
+  - destruct (checked_add last sg) as [l1|]; cbn [defer_opt bind fst snd]; [|exact I].
+    unfold regions_push. cbn [fst snd]. destruct (size_of R (r_type r)) as [sr|]; cbn [defer_opt]; [|exact I].
+    destruct ((sr =? 0) && stype_is_array (r_type r)); cbn [defer_opt].
+    + split; [reflexivity|]. exists [g], [unnamed_region (padding_type n)]. repeat split. constructor; [exact Hsn | constructor].
+    + destruct (checked_add l1 sr); cbn [defer_opt]; [|exact I].
+      split; [reflexivity|]. exists [g; r], [unnamed_region (padding_type n); r]. rewrite <- !app_assoc. repeat split.
+      constructor; [exact Hsn | constructor; [apply same_named_refl | constructor]].
+Qed.
+
+(** pushes only append to the region list and only read the offset *)
+Definition shift (rs : list region) (o : outcome (list region * N)) : outcome (list region * N) :=
+  match o with
+  | Ok (d, l) => Ok (rs ++ d, l)
+  | Defer => Defer
+  | Err m => Err m
+  | Panic m => Panic m
+  end.
+
+Lemma regions_push_frame R rs l a :
+  regions_push R (rs, l) a = option_map (fun x => (rs ++ fst x, snd x)) (regions_push R ([], l) a).
+Proof.
+  unfold regions_push. cbn [fst snd]. destruct (size_of R (r_type a)) as [s|]; [|reflexivity].
+  destruct (_ && _); cbn [option_map fst snd]; [now rewrite app_nil_r|].
+  destruct (checked_add l s); reflexivity.
+Qed.
+
+Lemma push_pending_frame R rs l p : push_pending R (rs, l) p = shift rs (push_pending R ([], l) p).
+Proof.
+  unfold push_pending. cbn [fst snd].
+  assert (forall a, defer_opt (regions_push R (rs, l) a) = shift rs (defer_opt (regions_push R ([], l) a))) as Hd.
+  { intros a. rewrite regions_push_frame. destruct (regions_push R ([], l) a) as [[d l']|]; reflexivity. }
+  destruct (fst p) as [off|].
+  - destruct (off <? l); [reflexivity|]. rewrite Hd.
+    destruct (defer_opt (regions_push R ([], l) _)) as [[d l']| | |]; cbn [shift bind]; try reflexivity.
+    rewrite regions_push_frame. rewrite (regions_push_frame R d l').
+    destruct (regions_push R ([], l') (snd p)) as [[d2 l2]|]; cbn [option_map defer_opt shift fst snd]; [|reflexivity].
+    now rewrite app_assoc.
+  - cbn [bind]. apply Hd.
+Qed.
+
+Lemma fold_push_frame R : forall ps rs l,
+  foldM (push_pending R) ps (rs, l) = shift rs (foldM (push_pending R) ps ([], l)).
+Proof.
+  induction ps as [|p ps IH]; intros rs l; cbn [foldM]; [cbn; now rewrite app_nil_r|].
+  rewrite push_pending_frame. rewrite (push_pending_frame R [] l). 
+  destruct (push_pending R ([], l) p) as [[d l']| | |]; cbn [shift bind app]; try reflexivity.
+  rewrite IH, (IH d l'). destruct (foldM (push_pending R) ps ([], l')) as [[d2 l2]| | |]; cbn [shift]; try reflexivity.
+  now rewrite app_assoc.
+Qed.
+
+(** the whole list of declared fields: [pre ++ gap :: field :: post] against
+    [pre ++ (field with the address the gap gave it) :: post] *)
+Definition same_result (o1 o2 : outcome (list region * N)) : Prop :=
+  match o1, o2 with
+  | Ok (rs1, l1), Ok (rs2, l2) => l1 = l2 /\ Forall2 same_named rs1 rs2
+  | Defer, Defer | Err _, Err _ | Panic _, Panic _ => True
+  | _, _ => False
+  end.
+
+Lemma Forall2_same_refl rs : Forall2 same_named rs rs.
+Proof. induction rs; constructor; [apply same_named_refl | assumption]. Qed.
+
+Theorem gap_is_address_fold R pre g n r post acc0 accp :
+  is_gap g n -> foldM (push_pending R) pre acc0 = Ok accp ->
+  same_result (foldM (push_pending R) (pre ++ (None, g) :: (None, r) :: post) acc0)
+              (foldM (push_pending R) (pre ++ (Some (snd accp + n), r) :: post) acc0).
+Proof.
+  intros Hg Hpre. rewrite !foldM_app, Hpre. cbn [bind foldM]. destruct accp as [rs last]. cbn [snd].
+  pose proof (gap_then_field_is_address R rs last g n r Hg) as H.
+  destruct (push_pending R (rs, last) (None, g)) as [a1| | |] eqn:E1; cbn [bind] in *.
+  - destruct (push_pending R a1 (None, r)) as [[rs1 l1]| | |] eqn:E2,
+             (push_pending R (rs, last) (Some (last + n), r)) as [[rs2 l2]| | |] eqn:E3; cbn [bind same_result]; try contradiction; auto.
+    destruct H as (<- & mid1 & mid2 & -> & -> & Hm).
+    rewrite fold_push_frame, (fold_push_frame R post (rs ++ mid2)).
+    destruct (foldM (push_pending R) post ([], l1)) as [[d l']| | |]; cbn [shift same_result]; auto.
+    split; [reflexivity|]. apply Forall2_app; [apply Forall2_app; [apply Forall2_same_refl | exact Hm] | apply Forall2_same_refl].
+  - destruct (push_pending R (rs, last) (Some (last + n), r)) as [[rs2 l2]| | |]; cbn [bind same_result]; try contradiction; auto.
+  - destruct (push_pending R (rs, last) (Some (last + n), r)) as [[rs2 l2]| | |]; cbn [bind same_result]; try contradiction; auto.
+  - destruct (push_pending R (rs, last) (Some (last + n), r)) as [[rs2 l2]| | |]; cbn [bind same_result]; try contradiction; auto.
+Qed.
